@@ -258,7 +258,12 @@ class Sampler:
             nullok = False      # would need an explicit null on the wire: outside kio's writer support
         if fs["kind"] == "prim" and fs["ktype"] == "uuid":
             nullok = True
-        return self.item(fs, False if client_id else flex, depth, nullok)
+        v = self.item(fs, False if client_id else flex, depth, nullok)
+        if tagged and fs["kind"] == "prim" and fs["ktype"] == "float64" and v == afloat(-0.0):
+            # -0.0 == 0.0 for Kafka (Java double comparison) and for kio: a tagged float whose default is
+            # zero is elided for either zero, so -0.0 is not a canonical value there
+            v = afloat(1.0)
+        return v
 
     def struct(self, schema: dict, depth: int = 0) -> dict:
         return {"rec": [self.field(fs, schema, depth) for fs in schema["fields"]]}
